@@ -638,6 +638,13 @@ func (s *Store) Open() (retErr error) {
 			}
 		}()
 
+		if fsutil.PathExists(s.peersPath) {
+			// A node recovery is about to replace the newest snapshot with one built
+			// from the snapshots and the log. The existing SQLite file will not match
+			// it, so it must not be reused: perform a full restore.
+			s.logger.Printf("node recovery requested, full restore needed")
+			return nil
+		}
 		if !fsutil.PathExists(s.cleanSnapshotPath) {
 			return nil
 		}
